@@ -160,7 +160,7 @@ pub struct Tv {
 pub type MCache = Cache<u64, Tv, DivHasher, CacheProperties>;
 pub type MEntry = CacheEntry<u64, Tv, DivHasher, CacheProperties>;
 
-#[derive(Clone, Copy, Debug, PartialEq, Eq, Serialize, Deserialize, Hash)]
+#[derive(Clone, Copy, Debug, PartialEq, Eq, Serialize, Deserialize, Hash, PartialOrd, Ord)]
 pub enum Reason {
     Evict,
     Replace,
